@@ -302,10 +302,14 @@ impl<'ctx> NaivePriceRepository<'ctx> {
                     continue;
                 }
             }
-            for (j, Entry(source, rates)) in match self.records.get(&prev) {
+            // visit the neighbors in a fixed order, otherwise which of the equally
+            // ranked conversion chains wins would depend on the hash seed.
+            let mut neighbors: Vec<(&Commodity<'ctx>, &Entry)> = match self.records.get(&prev) {
                 None => continue,
-                Some(x) => x,
-            } {
+                Some(x) => x.iter().collect(),
+            };
+            neighbors.sort_by_key(|(j, _)| j.as_str());
+            for (j, Entry(source, rates)) in neighbors {
                 let bound = rates.partition_point(|(record_date, _)| record_date <= &date);
                 log::debug!(
                     "found next commodity {} with date bound {}",
